@@ -21,6 +21,22 @@ generate_constraint(generate_solvers(text)) on the isolated-form text itself, as
 through simplify(), whose merge() rewrites 'A >= c, A <= c' to 'A = c' and rejects 'A > c, A < c').
 Nothing about the expected outcome is computed in Python: the harness compares floats with the
 integers TLC printed.
+
+Spellings and boundary values (one abstract case, many concrete ones; rotation is deterministic in case index + seed and
+counted in the evidence under `spellings_replayed`):
+  texts      numbers as 2 / 2.0 / 2. / 2.0e+00 / names of locals; the constant 0; multi-digit constants, coefficients and
+             coordinates (run "long": 10, 12, 100, '10*x10'); white space incl. the layout of the docstrings (leading
+             newline, indentation, blank lines); one string / tuple / list of strings; '=' and '=='
+  variables  base name or list of names, indices 0..2, 1/10/11 of 12, 1/10/100/11 of 112
+  arguments  nvars given / omitted, locals dict / None / omitted, variables omitted when 'x'; solvers as tuple / list /
+             the bare function; ctype / join forms
+  inputs     list of float / int / numpy.float64 / numpy.int64, zeros as -0.0, float64 ndarray; int64 and float32
+             ndarrays where the specified outcome is an integer (comparators =, <=, >=)
+  units      1; 2^40, 2^60; 2^-30; 2^-1000, 2^-400 (below the tolerance: =, <=, >= only); for texts without arithmetic
+             0.1, 1e-10, 1e10, 1e300, 1e-300 (17-digit decimals, exponents with sign)
+  boxes      min / max as floats, ints, numpy scalars, float64 / int64 ndarrays, tuples, None or +-inf; symbolic= / clip=
+             spelled out or omitted; inputs as above; units 1, 2^40, 1e10, 1e300, 0.5, 1.5, 0.1, 1e-10, 1e-300, 5e-324 and the
+             long-text units 2^-30, 1/3 (BoxScaleLemma of the spec)
 """
 import sys, random, io, contextlib
 from harness.core import Check, tier_seed, assert_repo, main_guard
@@ -32,14 +48,18 @@ RULE = ("TLC enumerates every (system, input point) of the bounded class [relati
         "(all comparator pairs, same / different right-hand sides, intervals incl. degenerate and empty ones, both "
         "orders) alone and next to an independent line on another variable; boxes lo<=hi incl. unbounded and degenerate "
         "sides] and emits the allowed observations; every one is replayed on the real generated functions under the "
-        "plain scheme and one rotating variable-name scheme / input container (list of float, list of int, ndarray), "
-        "degree-one systems additionally at scale 2^40 or 2^60; a case = (run, system, point, scheme); non-trivial = "
+        "plain scheme and one rotating SPELLING (variable-name scheme, number format, white-space layout, input container "
+        "[list of float / int / numpy scalars, -0.0, float64 / int64 / float32 ndarray], arguments given or omitted), "
+        "degree-one systems additionally in a huge or tiny unit (2^40, 2^60, 2^-30, 2^-400, 2^-1000) and systems without "
+        "arithmetic in decimal units (0.1, 1e-10, 1e10, 1e300, 1e-300); a separate run with multi-digit constants / coefficients / "
+        "coordinates; boxes in the plain spelling and in one rotating spelling of bounds, input, keywords and unit; a case = (run, system, point, scheme); non-trivial = "
         "the input violates at least one line or lies exactly on a boundary (x_i = rhs) / outside the box; systems that "
         "are contradictory at the point (TLC: no admissible outcome) are counted as trivial and not judged; distinct = "
         "by (run, system, point)")
 
 RUNS = {
     "quick": [("single", "sym/MC_LinRel", "MC_LinRel_single_quick.cfg", 4),
+              ("long", "sym/MC_LinRel", "MC_LinRel_long_quick.cfg", 2),
               ("pair", "sym/MC_LinRelSys", "MC_LinRelSys_quick.cfg", 4),
               ("triple", "sym/MC_LinRelTri", "MC_LinRelTri_quick.cfg", 4),
               ("grp2", "sym/MC_LinRelGrp", "MC_LinRelGrp_pair_quick.cfg", 4),
@@ -47,6 +67,7 @@ RUNS = {
               ("grpmix", "sym/MC_LinRelGrpTri", "MC_LinRelGrpTri_mix_quick.cfg", 2),
               ("box", "sym/MC_LinRel", "MC_LinRel_box_quick.cfg", 1)],
     "thorough": [("single", "sym/MC_LinRel", "MC_LinRel_single_thorough.cfg", 16),
+                 ("long", "sym/MC_LinRel", "MC_LinRel_long_thorough.cfg", 8),
                  ("pair", "sym/MC_LinRelSys", "MC_LinRelSys_thorough.cfg", 16),
                  ("triple", "sym/MC_LinRelTri", "MC_LinRelTri_thorough.cfg", 16),
                  ("grp2", "sym/MC_LinRelGrp", "MC_LinRelGrp_pair_thorough.cfg", 16),
@@ -69,32 +90,70 @@ def gather(a):
     return L.run_many(RUNS[a.tier], jobs=a.jobs)
 
 
+# how the ARGUMENTS are spelled (api): 0 = every argument given as a keyword (nvars=dim, locals=dict);
+# 1 = nvars omitted (it is documented as optional: the generated code indexes the vector it is given);
+# 2 = locals=None when the text needs no extra names (the documented default), nvars given;
+# 3 = nvars and (when empty) locals omitted, `variables` omitted when it is the default base name 'x';
+#     the solvers handed to generate_constraint as a list, a single solver as the bare function (both documented)
+APIS = 4
+
+
+def api_kwds(sch, loc, api):
+    kw = {"variables": sch.variables, "nvars": sch.dim, "locals": dict(loc)}
+    if api in (1, 3):
+        del kw["nvars"]
+    if api == 2 and not loc:
+        kw["locals"] = None
+    if api == 3:
+        if not loc:
+            del kw["locals"]
+        if sch.variables == "x":
+            del kw["variables"]
+    return kw
+
+
 class Compiler(object):
-    """generate_constraint(generate_solvers(text)) with a per-run cache keyed by the text"""
+    """generate_constraint(generate_solvers(text)) with a per-run cache keyed by the text and the argument spelling"""
     def __init__(self, ms):
         self.ms = ms
         self.cache = {}
 
-    def get(self, text, sch, loc):
-        key = (text, repr(sch.variables), sch.dim, tuple(sorted(loc.items())))
+    def get(self, text, sch, loc, api=0):
+        key = (text, repr(sch.variables), sch.dim, tuple(sorted(loc.items())), api)
         c = self.cache.get(key)
         if c is None:
-            solv = self.ms.generate_solvers(text, variables=sch.variables, nvars=sch.dim, locals=dict(loc))
-            cons = self.ms.generate_constraint(solv)
+            solv = self.ms.generate_solvers(text, **api_kwds(sch, loc, api))
+            if api == 3:
+                cons = self.ms.generate_constraint(solv[0] if len(solv) == 1 else list(solv))
+            else:
+                cons = self.ms.generate_constraint(solv)
             c = self.cache[key] = (solv, cons)
         return c
 
-    def get_split(self, text, sch, loc, cut):
-        """the same system handed to generate_solvers as a TUPLE of strings (documented alternative): lines [:cut]
-        and [cut:]; generate_solvers then returns nested solver groups, which generate_constraint must flatten"""
-        key = ("split", cut, text, repr(sch.variables), sch.dim, tuple(sorted(loc.items())))
+    def get_split(self, text, sch, loc, cut, aslist=False):
+        """the same system handed to generate_solvers as a TUPLE of strings (documented alternative; a list works the
+        same way): lines [:cut] and [cut:]; generate_solvers then returns nested solver groups, which
+        generate_constraint must flatten"""
+        key = ("split", cut, aslist, text, repr(sch.variables), sch.dim, tuple(sorted(loc.items())))
         c = self.cache.get(key)
         if c is None:
-            lines = text.split("\n")
+            lines = L.text_lines(text)
             parts = ("\n".join(lines[:cut]), "\n".join(lines[cut:]))
-            solv = self.ms.generate_solvers(parts, variables=sch.variables, nvars=sch.dim, locals=dict(loc))
+            solv = self.ms.generate_solvers(list(parts) if aslist else parts, variables=sch.variables, nvars=sch.dim, locals=dict(loc))
             c = self.cache[key] = self.ms.generate_constraint(solv)
         return c
+
+
+# container spellings of the input vector (harness/linrel_common.container); the last two write results back into
+# their own dtype and are used only where the specified outcome is an integer: comparators =, <=, >= (no tolerance
+# term), unit 1 -- an int64 / float32 array cannot hold rhs +- 1e-15, which is numpy's rule, not mystic's
+KINDS = ["float", "int", "array", "npfloat", "npint", "negzero", "intarray", "f32array"]
+
+
+def kinds_for(recs, sch):
+    if sch.scale == 1 and L.no_tolerance(recs):
+        return KINDS
+    return KINDS[:6] if sch.scale == 1 else ["float", "int", "array", "npfloat", "negzero"]
 
 
 def replay_relations(ck, chunk):
@@ -106,7 +165,8 @@ def replay_relations(ck, chunk):
     thorough = a.tier == "thorough"
     schemes = L.schemes_for(n, thorough)
     huge = L.huge_schemes(n)
-    kinds = ["float", "int", "array"]
+    tiny = L.tiny_schemes(n)
+    decimal = L.decimal_schemes(n)
     comp = Compiler(ms)
     rendered = {}
     rng = random.Random(a.seed)
@@ -136,10 +196,22 @@ def replay_relations(ck, chunk):
         lonely = set(ls[0] for ls, _ in groups if len(ls) == 1)
         deg1 = all(rc["kind"] in ("aff", "abs") for rc in recs)
         boundary = any(x[rc["i"] - 1] == rr for rc, rr in zip(recs, r))
-        todo = [(schemes[0], "float"), (schemes[1 + (idx + rot) % (len(schemes) - 1)], kinds[(idx + rot) % 3])]
-        if deg1 and (idx + rot) % 2 == 0:
-            todo.append((huge[((idx + rot) // 2) % len(huge)], kinds[((idx + rot) // 2) % 3]))
-        for sch, kind in todo:
+        j = idx + rot
+        sch2 = schemes[1 + j % (len(schemes) - 1)]
+        kk = kinds_for(recs, sch2)
+        # (scheme, container of the input, spelling of the arguments): the plain spelling, then one rotating spelling
+        todo = [(schemes[0], "float", 0), (sch2, kk[(j // (len(schemes) - 1)) % len(kk)], (j // 3) % APIS)]
+        # magnitudes: the unit of the lattice huge / tiny (degree-one texts: ScaleLemma) or a decimal fraction / power
+        # of ten (texts without arithmetic); units below the strictness tolerance only for texts without a tolerance term
+        if deg1:
+            pool = list(huge) + [t for t in tiny if not getattr(t, "nonstrict_only", False) or (L.no_tolerance(recs) and not grouped)]
+            if all(L.arithmetic_free(rc) for rc in recs):
+                pool += [t for t in decimal if not getattr(t, "nonstrict_only", False) or (L.no_tolerance(recs) and not grouped)]
+            if j % 2 == 0:
+                sch3 = pool[(j // 2) % len(pool)]
+                kk3 = kinds_for(recs, sch3)
+                todo.append((sch3, kk3[(j // 2) % len(kk3)], (j // 5) % APIS))
+        for sch, kind, api in todo:
             rk = (tuple(s), sch.name)
             rd = rendered.get(rk)
             if rd is None:
@@ -149,16 +221,19 @@ def replay_relations(ck, chunk):
             text, loc, _ = rd
             S = sch.scale
             ck.case(nontrivial=(not all(f)) or boundary, key=(name, tuple(s), tuple(x)))
+            for tagk in ("kind=" + kind, "api=%d" % api, "unit=%s" % (sch.name.split("*")[1] if "*" in sch.name else "1"),
+                         "numbers=" + sch.numfmt, "layout=" + ("doc" if text.startswith("\n") else "other")):
+                ck.extra["spelling:" + tagk] = ck.extra.get("spelling:" + tagk, 0) + 1
             detail = {"run": name, "text": text, "variables": sch.variables, "nvars": sch.dim, "locals": loc,
-                      "scheme": sch.name, "input_kind": kind, "spec_point": x, "scale": S,
+                      "scheme": sch.name, "input_kind": kind, "api": api, "spec_point": x, "scale": S,
                       "lhs_positions": [sch.pos[rc["i"] - 1] for rc in recs], "ops": [rc["op"] for rc in recs],
                       "expected": {"rhs": r, "feasible": f, "may_change": sorted(ch),
                                    "groups": [{"lines": [k + 1 for k in ls], "allowed_sign_tuples": sorted(ts)} for ls, ts in groups]}}
             kindtag = "+".join(sorted(set(rc["kind"] for rc in recs)))
             try:
-                solv, cons = comp.get(text, sch, loc)
+                solv, cons = comp.get(text, sch, loc, api)
                 xin = sch.point(x, kind)
-                detail["input"] = list(xin)
+                detail["input"] = [float(t) for t in xin]
                 y = cons(xin)
                 yv, moved = sch.project(y)
                 # the same through the per-line solver functions, one step at a time (composition order of
@@ -222,7 +297,7 @@ def replay_relations(ck, chunk):
                 # independent, so the composed constraint must give the result already judged above
                 cut = 1 + (idx + rot) // 2 % (len(recs) - 1)
                 try:
-                    yt = comp.get_split(text, sch, loc, cut)(sch.point(x, kind))
+                    yt = comp.get_split(text, sch, loc, cut, aslist=((idx + rot) // 4) % 2 == 1)(sch.point(x, kind))
                     if not (len(yt) == len(y) and all(bool(p == q) for p, q in zip(list(yt), list(y)))):
                         problems.append(("tuple-of-strings-differs", "the system given as a tuple of strings (lines[:%d], lines[%d:]) "
                                          "gives %r, as one string %r" % (cut, cut, list(yt), list(y))))
@@ -240,7 +315,7 @@ def replay_relations(ck, chunk):
                     elif form == 1:
                         alt = ms.generate_constraint(solv, ctype=[_inner] * len(solv))
                     elif form == 2:
-                        lines_ = text.split("\n")
+                        lines_ = L.text_lines(text)
                         nested = ms.generate_solvers(("\n".join(lines_[:1]), "\n".join(lines_[1:])), variables=sch.variables,
                                                      nvars=sch.dim, locals=dict(loc))
                         alt = ms.generate_constraint(nested, ctype=_inner)
@@ -302,49 +377,107 @@ def replay_relations(ck, chunk):
         ck.trace()
 
 
-def bound_value(v, hdr, alt):
-    if v == hdr["ninf"]:
-        return None if alt else float("-inf")
-    if v == hdr["pinf"]:
-        return None if alt else float("inf")
-    return float(v)
+# ---- bounds: spellings and magnitudes -------------------------------------------------------------------------
+# units of the box lattice (BoxScaleLemma of LinRel.tla: Clip commutes with every positive scale; the harness needs
+# no arithmetic beyond one monotone multiplication per number).  LONG units give bounds whose decimal text needs more
+# than 15 significant digits ('-9.313225746154785e-10', '0.6666666666666666'): reported under their own class.
+BOX_UNITS = [1, 2.0 ** 40, 0.5, 1e10, 1e300, 0.1, 1.5, 1e-10, 1e-300, 5e-324, 1, 0.5, 2.0 ** -30, 1.0 / 3]
+# how min / max are written: python floats (None / +-inf alternating for 'no bound', as documented), python ints,
+# numpy scalars, float64 / int64 ndarrays and tuples (+-inf for 'no bound': symbolic_bounds writes None away in place)
+BOX_SPELL = ["float", "int", "npscalar", "array", "intarray", "tuple"]
+# how the input vector is written (harness/linrel_common.container)
+BOX_XKIND = ["float", "int", "array", "npfloat", "npint", "intarray", "negzero"]
+
+
+def needs_long_text(v):
+    return v == v and abs(v) != float("inf") and float("%.15g" % v) != v
+
+
+def spell_bounds(b, hdr, S, spell, bi):
+    """(min, max) of box b in units of S, written in the spelling `spell`; alt = which 'no bound' spelling"""
+    import numpy
+    NINF, PINF = hdr["ninf"], hdr["pinf"]
+    fin = [v * S for v in list(b["lo"]) + list(b["hi"]) if v not in (NINF, PINF)]
+    if spell in ("int", "intarray") and not L.int_ok(fin, 2 ** 62):
+        spell = {"int": "float", "intarray": "array"}[spell]
+    if spell == "intarray" and len(fin) < 2 * len(b["lo"]):
+        spell = "array"
+
+    def one(v, j, side):
+        if v in (NINF, PINF):
+            sign = -1 if v == NINF else 1
+            if spell in ("array", "tuple") or (bi + j + side) % 2 == 0:
+                return sign * float("inf")
+            return None
+        w = float(v) * S
+        if spell in ("int", "intarray"):
+            return int(w)
+        if spell == "npscalar":
+            return numpy.int64(int(w)) if (L.int_ok([w]) and (j + side) % 2) else numpy.float64(w)
+        return w
+    lo = [one(v, j, 0) for j, v in enumerate(b["lo"])]
+    hi = [one(v, j, 1) for j, v in enumerate(b["hi"])]
+    return lo, hi, spell
+
+
+def wrap_bounds(lo, hi, spell):
+    import numpy
+    if spell == "array":
+        return numpy.array(lo, dtype=float), numpy.array(hi, dtype=float)
+    if spell == "intarray":
+        return numpy.array(lo, dtype=numpy.int64), numpy.array(hi, dtype=numpy.int64)
+    if spell == "tuple":
+        return tuple(lo), tuple(hi)
+    return list(lo), list(hi)
 
 
 def replay_boxes(ck, chunk):
-    """boundsconstrain(lo, hi): symbolic and impose_bounds paths, plain and embedded in 12 variables"""
+    """boundsconstrain(lo, hi): symbolic and impose_bounds paths, plain and embedded in 12 variables, the bounds and the
+    input in rotating spellings and units; this worker handles the boxes bi with bi % nparts == part"""
     import mystic.constraints as mc
-    name, hdr, a, corrupt, (start, cases) = chunk
+    name, hdr, a, corrupt, (start, cases), (part, nparts) = chunk
     boxes = hdr["boxes"]
     n = hdr["n"]
     NINF, PINF = hdr["ninf"], hdr["pinf"]
     built = {}
     P12 = [1, 10]
 
-    def klass(b):
+    def klass(b, lo, hi):
         fin = [(l, h) for l, h in zip(b["lo"], b["hi"]) if l != NINF or h != PINF]
+        if any(needs_long_text(float(v)) for v in list(lo) + list(hi) if v is not None):
+            return "bound-needs-more-than-15-digits"
         if not fin:
             return "unbounded"
         if any(l == h for l, h in zip(b["lo"], b["hi"])):
             return "degenerate-side"
         return "regular"
 
-    def build(bi, path, embed):
-        key = (bi, path, embed)
+    def build(bi, path, embed, S, spell, kw):
+        key = (bi, path, embed, S, spell, kw)
         if key not in built:
             b = boxes[bi]
-            lo = [bound_value(v, hdr, (bi + j) % 2) for j, v in enumerate(b["lo"])]
-            hi = [bound_value(v, hdr, (bi + j + 1) % 2) for j, v in enumerate(b["hi"])]
+            lo, hi, spell_ = spell_bounds(b, hdr, S, spell, bi)
             if embed:
-                LO, HI = [None] * 12, [None] * 12
+                free = (float("-inf"), float("inf")) if spell_ in ("array", "tuple", "intarray") else (None, None)
+                if spell_ == "intarray":
+                    spell_ = "array"
+                LO, HI = [free[0]] * 12, [free[1]] * 12
                 for j, p in enumerate(P12):
                     LO[p], HI[p] = lo[j], hi[j]
                 lo, hi = LO, HI
+            kwds = {}
+            if path != "symbolic":
+                kwds["symbolic"] = False
+            elif kw:
+                kwds["symbolic"] = True                                # the default, spelled out
+            if kw and path != "symbolic":
+                kwds["clip"] = True                                    # the default, spelled out
             try:
                 with contextlib.redirect_stdout(io.StringIO()):        # mystic prints diagnostics
-                    fn = mc.boundsconstrain(list(lo), list(hi), symbolic=(path == "symbolic"))
-                built[key] = (fn, None, lo, hi)
+                    fn = mc.boundsconstrain(*wrap_bounds(lo, hi, spell_), **kwds)
+                built[key] = (fn, None, lo, hi, spell_, kwds)
             except Exception as ex:
-                built[key] = (None, ex, lo, hi)
+                built[key] = (None, ex, lo, hi, spell_, kwds)
         return built[key]
 
     sampled = 0
@@ -352,53 +485,84 @@ def replay_boxes(ck, chunk):
         x = c["x"]
         inb = set(c["inb"])
         for bi, b in enumerate(boxes):
-            exp = list(c["y"][bi])
+            if bi % nparts != part:
+                continue
+            exp0 = list(c["y"][bi])
             if corrupt and (ci + bi) % 31 == 0:
-                exp[0] += 1
-            for path in ("symbolic", "impose_bounds"):
-                for embed in ((False, True) if (ci + bi) % 4 == 0 else (False,)):
-                    fn, err, lo, hi = build(bi, path, embed)
-                    ck.case(nontrivial=(bi + 1) not in inb, key=("box", bi, tuple(x)))
-                    if embed:
-                        xin = [L.FILL + j for j in range(12)]
-                        for j, p in enumerate(P12):
-                            xin[p] = float(x[j])
-                    else:
-                        xin = [float(v) for v in x]
-                    detail = {"min": lo, "max": hi, "path": path, "input": list(xin), "expected_clip": exp, "box_class": klass(b)}
-                    key = "box:%s:%s:" % (path, klass(b))
-                    if fn is None:
-                        ck.violation(key + "raises:" + type(err).__name__, dict(detail, error=repr(err)),
-                                     "boundsconstrain(%r, %r, symbolic=%s) raised %r" % (lo, hi, path == "symbolic", err))
-                        continue
-                    try:
-                        y = fn(list(xin))
-                        yv = [y[p] for p in P12] if embed else list(y)
-                        pad = [j for j in range(12) if j not in P12 and not (y[j] == L.FILL + j)] if embed else []
-                    except Exception as ex:
-                        ck.violation(key + "call-raises:" + type(ex).__name__, dict(detail, error=repr(ex)),
-                                     "boundsconstrain(%r, %r, symbolic=%s)(%r) raised %r" % (lo, hi, path == "symbolic", xin, ex))
-                        continue
-                    detail["output"] = list(y)
-                    inside = all((l == NINF or yy >= l) and (h == PINF or yy <= h) for yy, l, h in zip(yv, b["lo"], b["hi"]))
-                    if pad:
-                        what = "padding-changed"
-                    elif not inside:
-                        what = "outside-box"
-                    elif (bi + 1) in inb and not all(p == q for p, q in zip(yv, x)):
-                        what = "inside-point-moved"
-                    elif not all(p == q for p, q in zip(yv, exp)):
-                        what = "not-clipped-to-nearest-bound"
-                    else:
-                        what = None
-                        if sampled < 1 and (bi + 1) not in inb and embed:
-                            sampled += 1
-                            ck.sample({"run": "box", "min": lo, "max": hi, "path": path, "input": xin,
-                                       "output": [float(t) for t in y], "spec_clip": exp})
-                    if what:
-                        ck.violation(key + what, detail, "boundsconstrain(%r, %r, symbolic=%s)(%r) = %r, Clip = %r: %s" % (
-                            lo, hi, path == "symbolic", xin, list(y), exp, what))
-        ck.trace()
+                exp0[0] += 1
+            v = ci + bi
+            # the plain spelling for every (point, box) and the same pair in a rotating unit / spelling of bounds and input
+            u = (v + bi) % len(BOX_UNITS)
+            variants = [(1, "float", "float", 0),
+                        (BOX_UNITS[u], BOX_SPELL[(u + bi) % len(BOX_SPELL)], BOX_XKIND[v % len(BOX_XKIND)], (u + bi) % 2)]
+            for S, spell, xkind, kw in variants:
+                exp = [e * S for e in exp0]
+                xs = [xv * S for xv in x]
+                if xkind == "intarray" and not (float(S) == int(S) and S < 2 ** 41):
+                    xkind = "array"                 # an int64 vector cannot hold a fractional bound: numpy's rule, not mystic's
+                if xkind in ("int", "npint", "intarray") and not L.int_ok(xs, 2 ** 62):
+                    xkind = L.KIND_TWIN[xkind]
+                for path in ("symbolic", "impose_bounds"):
+                    for embed in ((False, True) if v % 4 == 0 and (S == 1 or u % 3 == 0) else (False,)):
+                        fn, err, lo, hi, spell_, kwds = build(bi, path, embed, S, spell, kw)
+                        ck.case(nontrivial=(bi + 1) not in inb, key=("box", bi, tuple(x)))
+                        for tagk in ("box-bounds=" + spell_, "box-input=" + xkind, "box-unit=%r" % S, "box-kwds=%s" % ",".join(sorted(kwds))):
+                            ck.extra["spelling:" + tagk] = ck.extra.get("spelling:" + tagk, 0) + 1
+                        if embed:
+                            xin = [L.FILL + j for j in range(12)]
+                            for j, p in enumerate(P12):
+                                xin[p] = xs[j]
+                        else:
+                            xin = list(xs)
+                        xin = L.container(xin, xkind)
+                        kl = klass(b, lo, hi)
+                        intfrac = xkind in ("int", "npint") and not L.int_ok([t for t in lo + hi if t is not None and abs(t) != float("inf")])
+                        detail = {"min": lo, "max": hi, "bounds_spelling": spell_, "kwds": kwds, "path": path, "unit": S, "input_kind": xkind,
+                                  "input": [float(t) for t in xin], "expected_clip": exp, "box_class": kl}
+                        key = "box:%s:%s:" % (path, kl)
+                        if intfrac:
+                            key += "integer-input:non-integer-bound:"
+                        call = "boundsconstrain(%r, %r%s)" % (lo, hi, "".join(", %s=%r" % kv for kv in sorted(kwds.items())))
+                        if fn is None:
+                            ck.violation(key + "raises:" + type(err).__name__, dict(detail, error=repr(err)), "%s raised %r" % (call, err))
+                            continue
+                        try:
+                            y = fn(xin)
+                            yv = [y[p] for p in P12] if embed else list(y)
+                            pad = [j for j in range(12) if j not in P12 and not (y[j] == L.FILL + j)] if embed else []
+                        except Exception as ex:
+                            ck.violation(key + "call-raises:" + type(ex).__name__, dict(detail, error=repr(ex)),
+                                         "%s(%r) raised %r" % (call, xin, ex))
+                            continue
+                        detail["output"] = [float(t) for t in y]
+                        inside = all((l == NINF or yy >= l * S) and (h == PINF or yy <= h * S) for yy, l, h in zip(yv, b["lo"], b["hi"]))
+                        if len(y) != len(xin):
+                            what = "length"
+                        elif pad:
+                            what = "padding-changed"
+                        elif not inside:
+                            what = "outside-box"
+                        elif (bi + 1) in inb and not all(p == q for p, q in zip(yv, xs)):
+                            what = "inside-point-moved"
+                        elif not all(p == q for p, q in zip(yv, exp)):
+                            what = "not-clipped-to-nearest-bound"
+                        else:
+                            what = None
+                            if sampled < 1 and (bi + 1) not in inb and embed and S != 1:
+                                sampled += 1
+                                ck.sample({"run": "box", "min": lo, "max": hi, "path": path, "input": [float(t) for t in xin],
+                                           "output": [float(t) for t in y], "spec_clip": exp0, "unit": S})
+                        if what and what != "length" and not pad and all(abs(p - q) <= 1e-14 * abs(q) for p, q in zip(yv, exp)) and \
+                                kl == "bound-needs-more-than-15-digits":
+                            detail["observed_as"] = what
+                            key, what = "box:%s:%s:" % (path, kl), "result-off-by-the-rounding-of-the-bound"
+                        elif what and intfrac and what != "length" and not pad and all(p == int(q) for p, q in zip(yv, exp)):
+                            detail["observed_as"] = what
+                            key, what = "box:%s:integer-input:non-integer-bound:" % path, "result-truncated"
+                        if what:
+                            ck.violation(key + what, detail, "%s(%r) = %r, Clip = %r: %s" % (call, xin, list(y), exp, what))
+        if part == 0:
+            ck.trace()
 
 
 def explore(ck, a, runs, corrupt=False, only=None, stride=1):
@@ -416,13 +580,29 @@ def explore(ck, a, runs, corrupt=False, only=None, stride=1):
             continue
         if stride > 1 and name != "box":
             cases = cases[::stride]
-        chunks = [(name, hdr, a, corrupt, sl) for sl in L.chunked(cases, 4 * a.jobs if len(cases) > 2000 else 1)]
+        if name == "box":
+            nparts = max(1, min(a.jobs, 8))
+            chunks = [(name, hdr, a, corrupt, (0, cases), (part, nparts)) for part in range(nparts)]
+        else:
+            chunks = [(name, hdr, a, corrupt, sl) for sl in L.chunked(cases, 4 * a.jobs if len(cases) > 2000 else 1)]
         L.parallel_replay(ck, replay_boxes if name == "box" else replay_relations, chunks, a.jobs)
+    sp = {k[len("spelling:"):]: v for k, v in ck.extra.items() if k.startswith("spelling:")}
+    for k in [k for k in ck.extra if k.startswith("spelling:")]:
+        del ck.extra[k]
+    ck.extra["spellings_replayed"] = dict(sorted(sp.items()))       # how often each concrete spelling / unit was replayed
     ck.assumptions = [
         "inputs are integer vectors (times a power of two for the huge-magnitude schemes) and coefficients small integers, so "
         "IEEE arithmetic of the generated code is exact and a float can be compared with the integer TLC printed",
-        "huge magnitudes rest on ScaleLemma of LinRel.tla (checked by TLC for S in {2, 1000}; used with S = 2^40, 2^60) and "
-        "cover degree-one right-hand sides only",
+        "huge and tiny magnitudes rest on ScaleLemma of LinRel.tla (the integers of the spec are multiples of an arbitrary unit; "
+        "checked by TLC for S in {2, 1000}; used with the units 2^40, 2^60, 2^-30, 2^-400, 2^-1000) and cover degree-one right-hand "
+        "sides only; units below the strictness tolerance 1e-15 only for texts whose comparators bring no tolerance in (=, <=, >=); "
+        "units that are no power of two (0.1, 1e-10, 1e10, 1e300, 1e-300) only for texts without arithmetic (right-hand side a "
+        "constant or +-one variable), where every float the code sees is one the harness computed by the same single product",
+        "an int64 / float32 ndarray as input only where the specified outcome is an integer (comparators =, <=, >=, unit 1): such an "
+        "array cannot hold rhs +- 1e-15 (numpy's assignment rule, the generated code writes into the vector it is given); tuples "
+        "(no item assignment) and `variables` as a tuple / ndarray raise on the unchanged tree and are outside the domain",
+        "boxes: Clip commutes with every positive unit (BoxScaleLemma, TLC: S in {2, 1000}); harness: one monotone float product per "
+        "number; an int64 ndarray as input only at integer units",
         "feasible inputs closer to the boundary than the documented tolerance(rhs) = 1e-15*(1+|rhs|) are outside the class "
         "(on the integer lattice a feasible input is at distance >= 1 >> tolerance)",
         "rendering of relation records as text (harness/linrel_common.py) is a documented bijection guarded by evaluating the "
@@ -440,6 +620,107 @@ def explore(ck, a, runs, corrupt=False, only=None, stride=1):
 
 
 # ------------------------------------------------------------------------------------------------
+# mutants that only the SPELLINGS / BOUNDARY VALUES added with the hardening can see (every input of the earlier
+# enumeration -- python floats / ints in lists, one-digit constants at unit 1, every argument given, one-line-per-line
+# text -- behaves as before under each of them).  At module level so that they can also be run against an older check.
+_PATCHED = []
+
+
+def _patch(obj, attr, val):
+    _PATCHED.append((obj, attr, getattr(obj, attr)))
+    setattr(obj, attr, val)
+
+
+def unpatch_all():
+    while _PATCHED:
+        obj, attr, val = _PATCHED.pop()
+        setattr(obj, attr, val)
+
+
+def hardening_mutants():
+    import re
+    import numpy
+    import mystic.symbolic as ms
+    import mystic.constraints as mc
+    from mystic.tools import flatten
+    orig_cp, orig_gs, orig_gc, orig_sb = ms.constraints_parser, ms.generate_solvers, ms.generate_constraint, ms.symbolic_bounds
+
+    def m_ndim_off_by_one():
+        # nvars omitted: the number of variables read off the text is one too small (max index instead of max index + 1)
+        def constraints_parser(constraints, variables='x', nvars=None):
+            if nvars is None and isinstance(variables, str):
+                found = [int(v[len(variables):]) for v in ms.get_variables(constraints, variables)]
+                if found:
+                    nvars = max(found)
+            return orig_cp(constraints, variables=variables, nvars=nvars)
+        _patch(ms, "constraints_parser", constraints_parser)
+
+    def m_bare_solver_ignored():
+        # 'a constraint solver, or list of constraint solvers': the single function is not wrapped into a list but dropped
+        def generate_constraint(conditions, ctype=None, join=None, **kwds):
+            if callable(conditions):
+                conditions = []
+            return orig_gc(conditions, ctype, join, **kwds)
+        _patch(ms, "generate_constraint", generate_constraint)
+
+    def m_indented_lines_dropped():
+        # lines that begin with white space (the layout of every docstring example) are taken for continuation lines
+        def constraints_parser(constraints, variables='x', nvars=None):
+            kept = "\n".join(ln for ln in constraints.split("\n") if ln[:1] not in (" ", "\t"))
+            return orig_cp(kept, variables=variables, nvars=nvars)
+        _patch(ms, "constraints_parser", constraints_parser)
+
+    def m_bounds_text_6_decimals():
+        # symbolic_bounds writes the bounds with '%f' (six decimals, no exponent)
+        def symbolic_bounds(min, max, variables=None):
+            text = orig_sb(min, max, variables)
+            return re.sub(r"(>=|<=) (\S+)", lambda m: "%s %f" % (m.group(1), float(m.group(2))) if abs(float(m.group(2))) < 1e30 else m.group(0), text)
+        _patch(ms, "symbolic_bounds", symbolic_bounds)
+
+    def m_neq_isclose():
+        # '!=' compares with numpy.isclose (atol 1e-8) instead of equal: values that are tiny but different count as equal
+        def generate_solvers(constraints, variables='x', nvars=None, locals=None):
+            solv = orig_gs(constraints, variables, nvars, locals)
+            for f in flatten(solv):
+                f.__globals__["equal"] = lambda p, q: numpy.isclose(p, q)
+            return solv
+        _patch(ms, "generate_solvers", generate_solvers)
+
+    def m_constants_8_decimals():
+        # numeric constants of the text are rounded to 8 decimals
+        num = re.compile(r"(?<![\w.])(\d+\.\d*(?:[eE][+-]?\d+)?|\.\d+(?:[eE][+-]?\d+)?)")
+        def constraints_parser(constraints, variables='x', nvars=None):
+            return orig_cp(num.sub(lambda m: repr(round(float(m.group(1)), 8)), constraints), variables=variables, nvars=nvars)
+        _patch(ms, "constraints_parser", constraints_parser)
+
+    def m_bounds_tuple_written():
+        # symbolic_bounds normalises min / max in place (a caller's tuple cannot be written)
+        def symbolic_bounds(min, max, variables=None):
+            for i in range(len(min)):
+                min[i] = min[i]
+            return orig_sb(min, max, variables)
+        _patch(ms, "symbolic_bounds", symbolic_bounds)
+
+    orig_bounded = mc.bounded
+
+    def m_int_working_array():
+        # bounded() keeps the dtype of an integer input vector: a fractional bound written into it is truncated
+        def bounded(seq, bounds, index=None, clip=True, nearest=True):
+            given = numpy.array(seq)
+            out = orig_bounded(seq, bounds, index, clip, nearest)
+            return out.astype(given.dtype) if given.dtype.kind in "iu" else out
+        _patch(mc, "bounded", bounded)
+
+    return [("impose_bounds path: integer working array truncates a fractional bound", m_int_working_array, ["box"]),
+            ("nvars omitted: number of variables read off the text is one too small", m_ndim_off_by_one, ["single", "long"]),
+            ("generate_constraint drops a solver handed over as the bare function", m_bare_solver_ignored, ["single", "long"]),
+            ("lines beginning with white space are not compiled (docstring layout)", m_indented_lines_dropped, ["single", "pair"]),
+            ("symbolic_bounds writes the bounds with six decimals", m_bounds_text_6_decimals, ["box"]),
+            ("'!=' compares with isclose instead of equal (tiny but different values)", m_neq_isclose, ["single", "grp2"]),
+            ("constants of the text rounded to 8 decimals", m_constants_8_decimals, ["single", "grp2"]),
+            ("symbolic_bounds writes into the caller's min (tuples)", m_bounds_tuple_written, ["box"])]
+
+
 def selftest(a, runs):
     """in-memory mutants of mystic.symbolic / constraints / math that the replay must catch"""
     import io, contextlib, re
@@ -450,7 +731,7 @@ def selftest(a, runs):
     ck = new_check(a)
     ck.outdir = "/dev/shm/verif_selftest_C13"
     with contextlib.redirect_stdout(io.StringIO()):
-        explore(ck, a, runs, only=["single", "pair", "box"] + ["grp2", "grp3", "grpmix"], stride=3)
+        explore(ck, a, runs, only=["single", "long", "pair", "box"] + ["grp2", "grp3", "grpmix"], stride=3)
     BASELINE_KEYS = set(ck.viol_keys)
     orig_cp, orig_rv, orig_tol, orig_ib, orig_gc = ms.constraints_parser, ms.replace_variables, mm.tolerance, mc.impose_bounds, ms.generate_constraint
 
@@ -561,6 +842,8 @@ def selftest(a, runs):
                ("corrupted expectation from TLC (same-variable groups)", lambda: None, "corrupt-grp"),
                ("boundsconstrain clips to the far bound", m_bounds_far, ["box"]),
                ("corrupted expectation from TLC", lambda: None, "corrupt")]
+    mutants += hardening_mutants()
+    mutants.append(("corrupted expectation from TLC (multi-digit run)", lambda: None, "corrupt-long"))
     missed = 0
     from harness.tlc import run_tlc
     rneg = run_tlc("sym/MC_LinRelSys", cfg="MC_LinRelSys_neg.cfg", workers=1)
@@ -579,13 +862,15 @@ def selftest(a, runs):
         buf = io.StringIO()
         with contextlib.redirect_stdout(buf):
             try:
-                explore(ck, a, runs, corrupt=(mode in ("corrupt", "corrupt-grp")),
-                        only=(mode if isinstance(mode, list) else GRP if mode == "corrupt-grp" else ["single", "pair", "box"]), stride=3)
+                explore(ck, a, runs, corrupt=(mode in ("corrupt", "corrupt-grp", "corrupt-long")),
+                        only=(mode if isinstance(mode, list) else GRP if mode == "corrupt-grp" else ["long"] if mode == "corrupt-long"
+                              else ["single", "pair", "box"]), stride=3)
             except Exception as ex:
                 print("mutant raised", repr(ex))
                 ck.violations += 1
         ms.constraints_parser, ms.replace_variables, mm.tolerance, ms.generate_constraint = orig_cp, orig_rv, orig_tol, orig_gc
         mc.boundsconstrain = orig_bc
+        unpatch_all()
         keys = sorted(ck.viol_keys)
         new = [k for k in keys if k not in BASELINE_KEYS]
         caught = bool(new) or (ck.violations and not keys)
@@ -604,16 +889,32 @@ def replay_artefact(path):
     import mystic.constraints as mc
     d = json.load(open(path))["detail"]
     if "min" in d:
-        fn = mc.boundsconstrain(list(d["min"]), list(d["max"]), symbolic=(d["path"] == "symbolic"))
-        y = list(fn(list(d["input"])))
+        unjson = lambda v: float(v) if isinstance(v, str) else v            # 'inf' / '-inf' are written as strings
+        lo, hi = [unjson(v) for v in d["min"]], [unjson(v) for v in d["max"]]
+        kwds = d.get("kwds", {"symbolic": d["path"] == "symbolic"})
+        with contextlib.redirect_stdout(io.StringIO()):
+            fn = mc.boundsconstrain(*wrap_bounds(lo, hi, d.get("bounds_spelling", "float")), **kwds)
+        xin = L.container([unjson(v) for v in d["input"]], d.get("input_kind", "float"))
+        y = list(fn(xin))
         exp = d["expected_clip"]
         got = [y[1], y[10]] if len(y) == 12 else y
         ok = all(p == q for p, q in zip(got, exp))
-        print("boundsconstrain(%r, %r, symbolic=%s)(%r) = %r; Clip = %r" % (d["min"], d["max"], d["path"] == "symbolic", d["input"], y, exp))
+        print("boundsconstrain(%r, %r, **%r)(%r) = %r; Clip = %r" % (lo, hi, kwds, xin, y, exp))
     else:
-        cons = ms.generate_constraint(ms.generate_solvers(d["text"], variables=d["variables"], nvars=d["nvars"], locals=dict(d["locals"])))
+        kw = {"variables": d["variables"], "nvars": d["nvars"], "locals": dict(d["locals"])}
+        api = d.get("api", 0)                       # the spelling of the arguments of the recorded case (see api_kwds)
+        if api in (1, 3):
+            del kw["nvars"]
+        if api == 2 and not d["locals"]:
+            kw["locals"] = None
+        if api == 3 and not d["locals"]:
+            del kw["locals"]
+        if api == 3 and d["variables"] == "x":
+            del kw["variables"]
+        solv = ms.generate_solvers(d["text"], **kw)
+        cons = ms.generate_constraint((solv[0] if len(solv) == 1 else list(solv)) if api == 3 else solv)
         x = list(d["input"])
-        y = list(cons(list(x)))
+        y = list(cons(L.container(list(x), d.get("input_kind", "float"))))
         e, S = d["expected"], d["scale"]
         spec_pos = d["lhs_positions"]
         may = set(spec_pos[k] for k in range(len(spec_pos)) if not e["feasible"][k])
